@@ -698,3 +698,113 @@ def scripted_chooser(script, fallback=None):
             return last
         return min(en, key=lambda t: t.index)
     return choose
+
+
+# ---------------------------------------------------------------------------------------- files (storage shim)
+class SimFile:
+    """A file of the in-memory file system of a world. Text is UTF-8. A flush of buffered text reaches the
+    file in two OS writes with a scheduling point in between, so that a partially written line is a state
+    other tasks can observe."""
+
+    def __init__(self, path, mode):
+        self.path, self.mode = path, mode
+        self.name = "file:" + str(path).rsplit("/", 1)[-1]
+        self.buf = ""
+        self.pos = 0
+        self.closed = False
+        w = W
+        if "w" in mode:
+            vop("file.create", self, _always, lambda: w.fs.__setitem__(path, bytearray()))
+        elif "a" in mode:
+            vop("file.open_a", self, _always, lambda: w.fs.setdefault(path, bytearray()))
+        else:
+            def eff():
+                if path not in w.fs:
+                    return FileNotFoundError(path)
+                return None
+            r = vop("file.open_r", self, _always, eff)
+            if r is not None:
+                raise r
+
+    def write(self, s):
+        self.buf += s
+        return len(s)
+
+    def flush(self):
+        if not self.buf or "r" in self.mode:
+            return
+        data = self.buf.encode("utf-8")
+        self.buf = ""
+        w = W
+        cut = max(1, len(data) // 2)
+        vop("file.write", self, _always, lambda: w.fs[self.path].extend(data[:cut]), "part1")
+        if data[cut:]:
+            vop("file.write", self, _always, lambda: w.fs[self.path].extend(data[cut:]), "part2")
+
+    def tell(self):
+        if "r" in self.mode:
+            return self.pos
+        return vop("file.tell", self, _always, lambda: len(W.fs[self.path]) + len(self.buf.encode("utf-8")))
+
+    def seek(self, off, whence=0):
+        self.pos = off
+        return off
+
+    def readline(self):
+        w = W
+
+        def eff():
+            data = bytes(w.fs.get(self.path, b""))
+            end = data.find(b"\n", self.pos)
+            chunk = data[self.pos:] if end < 0 else data[self.pos:end + 1]
+            self.pos += len(chunk)
+            return chunk.decode("utf-8", errors="replace")
+        return vop("file.readline", self, _always, eff)
+
+    def read(self):
+        w = W
+
+        def eff():
+            data = bytes(w.fs.get(self.path, b""))[self.pos:]
+            self.pos += len(data)
+            return data.decode("utf-8", errors="replace")
+        return vop("file.read", self, _always, eff)
+
+    def close(self):
+        if not self.closed:
+            self.flush()
+            self.closed = True
+
+    def __enter__(self):
+        return self
+
+    def __exit__(self, *a):
+        self.close()
+
+
+def sim_open(path, mode="r", *a, **k):
+    return SimFile(path, mode)
+
+
+def make_os_shim():
+    import os as real_os
+    m = types.ModuleType("os")
+    m.path = real_os.path
+    m.sep = real_os.sep
+    m.linesep = real_os.linesep
+
+    def remove(path):
+        w = W
+
+        def eff():
+            if path not in w.fs:
+                return FileNotFoundError(path)
+            del w.fs[path]
+            return None
+        r = vop("os.remove", types.SimpleNamespace(name="fs"), _always, eff, str(path).rsplit("/", 1)[-1])
+        if r is not None:
+            raise r
+    m.remove = remove
+    m.getpid = lambda: (W.cur.index + 1000) if W and W.cur else real_os.getpid()
+    m.listdir = lambda d: sorted(p.rsplit("/", 1)[-1] for p in W.fs if p.rsplit("/", 1)[0] == d.rstrip("/"))
+    return m
